@@ -1182,3 +1182,255 @@ def rename_classes(tree: ast.Module, mapping: dict) -> int:
                 x.asname = mapping[x.asname]
                 k += 1
     return k
+
+
+# ---------------------------------------------------------------------------------------------------------------------
+# (xvi) Canonical tests.  `not (a is b)` / `not a == b` / `not a in b` are read as `a is not b` / `a != b` / `a not in b`
+# (and the other way round for the negated operators), and a chain `isinstance(x, A) or isinstance(x, B)` over one
+# subject as `isinstance(x, (A, B))`.  Several recognisers look for the test, not for its meaning on the branches.
+
+
+def canonical_tests(tree: ast.AST) -> int:
+    NEG = {ast.Is: ast.IsNot, ast.IsNot: ast.Is, ast.Eq: ast.NotEq, ast.NotEq: ast.Eq, ast.In: ast.NotIn, ast.NotIn: ast.In}
+    k = [0]
+
+    def is_isinstance(e):
+        return isinstance(e, ast.Call) and isinstance(e.func, ast.Name) and e.func.id == 'isinstance' and len(e.args) == 2 and not e.keywords and isinstance(e.args[0], (ast.Name, ast.Attribute))
+
+    class T(ast.NodeTransformer):
+        def visit_UnaryOp(self, n):
+            self.generic_visit(n)
+            if isinstance(n.op, ast.Not) and isinstance(n.operand, ast.Compare) and len(n.operand.ops) == 1 and type(n.operand.ops[0]) in NEG:
+                k[0] += 1
+                return ast.copy_location(ast.Compare(left=n.operand.left, ops=[NEG[type(n.operand.ops[0])]()], comparators=n.operand.comparators), n)
+            return n
+
+        def visit_BoolOp(self, n):
+            self.generic_visit(n)
+            if not isinstance(n.op, ast.Or):
+                return n
+            out = []
+            for v in n.values:
+                if out and is_isinstance(v) and is_isinstance(out[-1]) and ast.dump(v.args[0]) == ast.dump(out[-1].args[0]):
+                    prev = out[-1]
+                    a = list(prev.args[1].elts) if isinstance(prev.args[1], ast.Tuple) else [prev.args[1]]
+                    b = list(v.args[1].elts) if isinstance(v.args[1], ast.Tuple) else [v.args[1]]
+                    out[-1] = ast.copy_location(ast.Call(func=prev.func, args=[prev.args[0], ast.copy_location(ast.Tuple(elts=a + b, ctx=ast.Load()), prev.args[1])], keywords=[]), prev)
+                    k[0] += 1
+                else:
+                    out.append(v)
+            if len(out) == 1:
+                return out[0]
+            n.values = out
+            return n
+
+    T().visit(tree)
+    if k[0]:
+        ast.fix_missing_locations(tree)
+    return k[0]
+
+
+# ---------------------------------------------------------------------------------------------------------------------
+# (xvii) Queue calls with positional block / timeout: `q.get(True, t)` is read as `q.get(timeout=t)`, `q.get(False)` as
+# `q.get(block=False)`, `q.put(x, True, t)` as `q.put(x, timeout=t)`.  Only with a literal True / False in the block
+# position (`d.get(key, default)` of a mapping is not touched).
+# (xviii) `x = a if c else b` as a statement is read as `if c: x = a` / `else: x = b` (one plain name as target).
+
+
+def canonical_queue_calls(tree: ast.AST) -> int:
+    k = 0
+    for c in ast.walk(tree):
+        if not (isinstance(c, ast.Call) and isinstance(c.func, ast.Attribute) and not c.keywords):
+            continue
+        me = c.func.attr
+        at = 0 if me in ('get',) else (1 if me in ('put',) else None)
+        if at is None or len(c.args) <= at or len(c.args) > at + 2:
+            continue
+        b = c.args[at]
+        if not (isinstance(b, ast.Constant) and isinstance(b.value, bool)):
+            continue
+        rest = c.args[at + 1 :]
+        c.args = c.args[:at]
+        if b.value is False:
+            c.keywords.append(ast.keyword(arg='block', value=b))
+        if rest:
+            c.keywords.append(ast.keyword(arg='timeout', value=rest[0]))
+        k += 1
+    return k
+
+
+def expand_ternary_assignments(tree: ast.AST) -> int:
+    k = [0]
+
+    class T(ast.NodeTransformer):
+        def visit_Assign(self, n):
+            if isinstance(n.value, ast.IfExp) and len(n.targets) == 1 and isinstance(n.targets[0], ast.Name):
+                k[0] += 1
+                import copy
+
+                t2 = copy.deepcopy(n.targets[0])
+                new = ast.If(test=n.value.test, body=[ast.copy_location(ast.Assign(targets=[n.targets[0]], value=n.value.body), n)], orelse=[ast.copy_location(ast.Assign(targets=[t2], value=n.value.orelse), n)])
+                return ast.copy_location(new, n)
+            return n
+
+    T().visit(tree)
+    if k[0]:
+        ast.fix_missing_locations(tree)
+    return k[0]
+
+
+# ---------------------------------------------------------------------------------------------------------------------
+# (xix) Operand order of symmetric comparisons and pushed-in negations.  `None is z`, `0 == n`, `FINISHED == z` are read
+# as `z is None`, `n == 0`, `z == FINISHED`: in ==, !=, is, is not the more constant operand goes to the right (literal >
+# ALL-CAPS name > anything else; equal rank: left as written).  `not (a or b)` / `not (a and b)` are read as
+# `not a and not b` / `not a or not b`, and `not not e` as `e` where e is boolean-valued (a comparison, an isinstance
+# call, another negation, a boolean operation of such) or stands in a test position.
+
+
+def _rank(e):
+    if isinstance(e, ast.Constant):
+        return 3
+    if isinstance(e, ast.UnaryOp) and isinstance(e.operand, ast.Constant):
+        return 3
+    if isinstance(e, ast.Name) and e.id.isupper():
+        return 2
+    if isinstance(e, ast.Attribute) and e.attr.isupper():
+        return 2
+    return 1
+
+
+def _boolean_valued(e):
+    if isinstance(e, ast.Compare):
+        return True
+    if isinstance(e, ast.UnaryOp) and isinstance(e.op, ast.Not):
+        return True
+    if isinstance(e, ast.Call) and isinstance(e.func, ast.Name) and e.func.id in ('isinstance', 'issubclass', 'callable', 'hasattr', 'bool'):
+        return True
+    if isinstance(e, ast.BoolOp):
+        return all(_boolean_valued(v) for v in e.values)
+    if isinstance(e, ast.Constant) and isinstance(e.value, bool):
+        return True
+    return False
+
+
+def canonical_operands(tree: ast.AST) -> int:
+    k = [0]
+    NEG = {ast.Is: ast.IsNot, ast.IsNot: ast.Is, ast.Eq: ast.NotEq, ast.NotEq: ast.Eq, ast.In: ast.NotIn, ast.NotIn: ast.In}
+
+    for c in ast.walk(tree):
+        if isinstance(c, ast.Compare) and len(c.ops) == 1 and isinstance(c.ops[0], (ast.Eq, ast.NotEq, ast.Is, ast.IsNot)):
+            if _rank(c.left) > _rank(c.comparators[0]):
+                c.left, c.comparators[0] = c.comparators[0], c.left
+                k[0] += 1
+
+    def neg(e, test):
+        """the negation of e, pushed in"""
+        if isinstance(e, ast.UnaryOp) and isinstance(e.op, ast.Not):
+            inner = simp(e.operand, True)
+            if test or _boolean_valued(inner):
+                k[0] += 1
+                return inner
+            return ast.copy_location(ast.UnaryOp(op=ast.Not(), operand=e), e)
+        if isinstance(e, ast.BoolOp):
+            k[0] += 1
+            dual = ast.Or() if isinstance(e.op, ast.And) else ast.And()
+            return ast.copy_location(ast.BoolOp(op=dual, values=[neg(v, True) for v in e.values]), e)
+        if isinstance(e, ast.Compare) and len(e.ops) == 1 and type(e.ops[0]) in NEG:
+            k[0] += 1
+            return ast.copy_location(ast.Compare(left=e.left, ops=[NEG[type(e.ops[0])]()], comparators=e.comparators), e)
+        return ast.copy_location(ast.UnaryOp(op=ast.Not(), operand=simp(e, True)), e)
+
+    def simp(e, test):
+        if isinstance(e, ast.UnaryOp) and isinstance(e.op, ast.Not):
+            if isinstance(e.operand, (ast.BoolOp, ast.UnaryOp)) or (isinstance(e.operand, ast.Compare) and len(e.operand.ops) == 1 and type(e.operand.ops[0]) in NEG):
+                return neg(e.operand, test)
+            return e
+        if isinstance(e, ast.BoolOp) and test:
+            e.values = [simp(v, True) for v in e.values]
+            # flatten same-operator nesting produced by the push-in
+            flat = []
+            for v in e.values:
+                if isinstance(v, ast.BoolOp) and type(v.op) is type(e.op):
+                    flat.extend(v.values)
+                else:
+                    flat.append(v)
+            e.values = flat
+        return e
+
+    class T(ast.NodeTransformer):
+        def visit_If(self, n):
+            self.generic_visit(n)
+            n.test = simp(n.test, True)
+            return n
+
+        visit_While = visit_If
+        visit_IfExp = visit_If
+
+        def visit_Assert(self, n):
+            self.generic_visit(n)
+            n.test = simp(n.test, True)
+            return n
+
+        def visit_Return(self, n):
+            self.generic_visit(n)
+            if n.value is not None and isinstance(n.value, ast.UnaryOp):
+                n.value = simp(n.value, False)
+            return n
+
+        def visit_Assign(self, n):
+            self.generic_visit(n)
+            if isinstance(n.value, ast.UnaryOp):
+                n.value = simp(n.value, False)
+            return n
+
+    T().visit(tree)
+    if k[0]:
+        ast.fix_missing_locations(tree)
+    return k[0]
+
+
+# (xx) Orientation of the remaining symmetric comparisons (`end == z`, `n == z[2]`, `finished is z`): anchors.json records
+# the symmetric comparisons of every outermost function as written in the confirmed tree; a comparison that is not among
+# them while its mirror image is, is read as the mirror image.
+
+
+def symmetric_comparisons(fn) -> list:
+    out = set()
+    for c in ast.walk(fn):
+        if isinstance(c, ast.Compare) and len(c.ops) == 1 and isinstance(c.ops[0], (ast.Eq, ast.NotEq, ast.Is, ast.IsNot)):
+            out.add(ast.dump(c.left) + '|' + type(c.ops[0]).__name__ + '|' + ast.dump(c.comparators[0]))
+    return sorted(out)
+
+
+def restore_orientation(fn, ref: list) -> int:
+    ref = set(ref)
+    k = 0
+    for c in ast.walk(fn):
+        if isinstance(c, ast.Compare) and len(c.ops) == 1 and isinstance(c.ops[0], (ast.Eq, ast.NotEq, ast.Is, ast.IsNot)):
+            op = type(c.ops[0]).__name__
+            key = ast.dump(c.left) + '|' + op + '|' + ast.dump(c.comparators[0])
+            mirror = ast.dump(c.comparators[0]) + '|' + op + '|' + ast.dump(c.left)
+            if key not in ref and mirror in ref:
+                c.left, c.comparators[0] = c.comparators[0], c.left
+                k += 1
+    return k
+
+
+# (xxi) `dict(a=x, b=y)` (keywords only) is read as the display `{'a': x, 'b': y}`.
+
+
+def canonical_dicts(tree: ast.AST) -> int:
+    k = [0]
+
+    class T(ast.NodeTransformer):
+        def visit_Call(self, n):
+            self.generic_visit(n)
+            if isinstance(n.func, ast.Name) and n.func.id == 'dict' and not n.args and n.keywords and all(kw.arg for kw in n.keywords):
+                k[0] += 1
+                return ast.copy_location(ast.Dict(keys=[ast.copy_location(ast.Constant(kw.arg), n) for kw in n.keywords], values=[kw.value for kw in n.keywords]), n)
+            return n
+
+    T().visit(tree)
+    if k[0]:
+        ast.fix_missing_locations(tree)
+    return k[0]
